@@ -118,3 +118,53 @@ pub fn packet_constants() -> Vec<(&'static str, u64)> {
         ("MAX_PACKET_SIZE", crate::packet::MAX_PACKET_SIZE as u64),
     ]
 }
+
+/// Round trip of the described packet under a configured (non-default) protocol identity:
+/// `Packet::encode` for `dst_id`, then `Packet::decode` with the same identity. Returns whether the
+/// decoded packet equals the encoded one in every field (the identity of its header included) and
+/// the authenticated data equals `Packet::authenticated_data`; `Err` carries the decoder's error.
+pub fn packet_roundtrip_with_identity(
+    desc: &PacketDesc,
+    dst_id: &[u8; 32],
+    protocol_id: [u8; 6],
+    protocol_version: [u8; 2],
+) -> Result<bool, String> {
+    let identity = ProtocolIdentity {
+        protocol_id,
+        protocol_version,
+    };
+    let mut packet = to_packet(desc);
+    packet.header.protocol_identity = identity;
+    let data = packet.clone().encode(&NodeId::new(dst_id));
+    match Packet::decode(&NodeId::new(dst_id), identity, &data) {
+        Ok((decoded, authenticated_data)) => Ok(decoded.header.protocol_identity == identity
+            && from_packet(decoded) == from_packet(packet.clone())
+            && authenticated_data == packet.authenticated_data()),
+        Err(e) => Err(format!("{:?}", e)),
+    }
+}
+
+/// Whether a datagram encoded under one protocol identity is rejected by a decoder configured with
+/// another one.
+pub fn packet_foreign_identity_rejected(
+    desc: &PacketDesc,
+    dst_id: &[u8; 32],
+    sender: ([u8; 6], [u8; 2]),
+    receiver: ([u8; 6], [u8; 2]),
+) -> bool {
+    let mut packet = to_packet(desc);
+    packet.header.protocol_identity = ProtocolIdentity {
+        protocol_id: sender.0,
+        protocol_version: sender.1,
+    };
+    let data = packet.encode(&NodeId::new(dst_id));
+    Packet::decode(
+        &NodeId::new(dst_id),
+        ProtocolIdentity {
+            protocol_id: receiver.0,
+            protocol_version: receiver.1,
+        },
+        &data,
+    )
+    .is_err()
+}
